@@ -1568,3 +1568,42 @@ Qed.
 
 Lemma K_helper_bodies : helper_bodies_pinned = true.
 Proof. reflexivity. Qed.
+
+(* ================================================================ extension: DataField._calc_static_values *)
+Lemma K_sv_shape_bad : forall n m, sv_shape_bad n m = negb (m =? n).
+Proof.
+  intros n m. unfold sv_shape_bad.
+  destruct (Z.eqb_spec m n), (Z.eqb_spec n m); try reflexivity; congruence.
+Qed.
+
+(* a source-event data field is never written into the trial events array: no field binding of any table changes, no
+   existing array is written - whatever the function returned, whether the shape test passes or not *)
+Theorem static_srcevt_leaves_events : forall t f r n s,
+  rebinds_only t [] s (fst (calc_static t f r true n s)).
+Proof.
+  intros t f r n s.
+  assert (H : HF t [] (calc_static t f r true n) (fun _ => True)).
+  { unfold calc_static. destruct r as [|fv]; [apply fraise|].
+    eapply fb with (Q := fun _ => True).
+    - destruct fv as [v|g]; [apply F_alloc | apply F_getitem].
+    - intros b _; cbv beta. eapply fb; [apply F_rdbuf|]. intros v _; cbv beta.
+      destruct (sv_shape_bad n (zlen v)); [apply fraise | apply fret; exact I]. }
+  exact (proj1 (proj2 (H s I))).
+Qed.
+
+(* any other static data field: only the binding of that field of the events table changes (frame), and on success
+   with a new array the field holds exactly the returned values *)
+Theorem static_field_frame : forall t f r n s,
+  rebinds_only t [f] s (fst (calc_static t f r false n s)) /\
+  forall v, r = RArr (FFresh v) -> snd (calc_static t f r false n s) = Ok tt ->
+            col (fst (calc_static t f r false n s)) t f = Some v.
+Proof.
+  intros t f r n s. split.
+  - assert (H : HF t [f] (calc_static t f r false n) (fun _ => True)).
+    { unfold calc_static. destruct r as [|fv]; [apply fraise|].
+      eapply fb with (Q := fun _ => True).
+      - destruct fv as [v|g]; [apply F_alloc | apply F_getitem].
+      - intros b _; cbv beta. apply F_setitem. left; reflexivity. }
+    exact (proj1 (proj2 (H s I))).
+  - intros v -> Hok. unfold calc_static in *. apply alloc_then_setitem_col. exact Hok.
+Qed.
